@@ -1,6 +1,10 @@
 package parser
 
-import comb "github.com/moorara/algo/parser/combinator"
+import (
+	"math"
+
+	comb "github.com/moorara/algo/parser/combinator"
+)
 
 var (
 	escapedChars = []rune{'\\', '|', '.', '?', '*', '+', '(', ')', '[', ']', '{', '}', '$'}
@@ -66,7 +70,14 @@ func toNum(r comb.Result) (comb.Result, bool) {
 
 	var num int
 	for _, r := range l {
-		num = num*10 + r.Val.(int)
+		d := r.Val.(int)
+
+		// A number that does not fit is not a number: without this check it would silently wrap around.
+		if num > (math.MaxInt-d)/10 {
+			return comb.Result{}, false
+		}
+
+		num = num*10 + d
 	}
 
 	return comb.Result{
